@@ -190,14 +190,14 @@ type c20Case struct {
 	lease  clientv3.Lease
 	ctx    context.Context
 
-	mu       sync.Mutex
-	log      []c20Op           // executed changes, in order
-	leased   map[int]clientv3.LeaseID
-	lastOp   map[int]c20Op     // last executed change per key index
-	harnErr  []string
-	gets     int
-	watches  int
-	withRev  []int64 // revision option seen on each Watch call (0 = none); informational
+	mu      sync.Mutex
+	log     []c20Op // executed changes, in order
+	leased  map[int]clientv3.LeaseID
+	lastOp  map[int]c20Op // last executed change per key index
+	harnErr []string
+	gets    int
+	watches int
+	withRev []int64 // revision option seen on each Watch call (0 = none); informational
 
 	pauseDone     []chan struct{}
 	sentinelDone  chan struct{}
